@@ -104,17 +104,41 @@ extern "C" void h_conversions()
 #endif
 }
 
-// Units::addUnit with arbitrary prefix text, then the scaling code that converts the stored prefix again
+// Units::addUnit with arbitrary prefix text: never throws; the text is kept (so that the validator can report it) unless it is
+// a CellML integer of value zero, which means "no prefix"
 extern "C" void h_units_prefix()
 {
     char buf[MAXLEN + 1];
     std::string s;
-    __vrt_static_init(); // standardUnitsList, standardMultiplierList, standardPrefixList
-    mkString(s, buf);
+    int n = mkString(s, buf);
     auto u = Units::create("u");
     u->addUnit("metre", s, 1.0, 1.0);
     NO_UNCAUGHT_AT("Units::addUnit(prefix)");
     vout("unitCount", u->unitCount());
+    std::string kept = u->unitAttributePrefix(0);
+    vouts("kept", kept);
+    bool isInt = refInteger(buf, 0, n);
+    bool allZero = isInt;
+    for (int i = 0; i < n; ++i) {
+        if (buf[i] != '0' && buf[i] != '+' && buf[i] != '-') allZero = false;
+    }
+    if (isInt && allZero) {
+        vcheck(kept.empty(), "an integer prefix of value zero is dropped");
+    } else {
+        vcheck(kept == s, "every other prefix text is kept as given");
+    }
+#ifdef WITNESS
+    vcheck(0, "witness");
+#endif
+}
+// the scaling code converts the stored prefix text again
+extern "C" void h_units_scaling_prefix()
+{
+    char buf[MAXLEN + 1];
+    std::string s;
+    mkString(s, buf);
+    auto u = Units::create("u");
+    u->addUnit("metre", s, 1.0, 1.0);
     auto v = Units::create("v");
     v->addUnit("metre");
     double f = Units::scalingFactor(u, v);
